@@ -173,7 +173,8 @@ fn items01(tier: Tier) -> Vec<Item01> {
     // SIMD kernels that the run-time dispatch selects; 200 is 8 mod 16 as well
     let ls: Vec<usize> = if q { vec![64, 72, 256] } else { vec![64, 72, 104, 128, 200, 256, 504, 512] };
     let variants: Vec<(Interp, usize)> = if q {
-        vec![(Interp::Cubic, 256), (Interp::Cubic, 16), (Interp::Quadratic, 64), (Interp::Linear, 512), (Interp::Nearest, 1024)]
+        // oversampling 6: with dyadic steps (ratio 8, 0.25) only some frames fall on the sub-filter grid
+        vec![(Interp::Cubic, 256), (Interp::Cubic, 16), (Interp::Cubic, 6), (Interp::Quadratic, 64), (Interp::Linear, 512), (Interp::Nearest, 1024)]
     } else {
         vec![
             (Interp::Cubic, 16),
@@ -185,6 +186,9 @@ fn items01(tier: Tier) -> Vec<Item01> {
             (Interp::Nearest, 1024),
             (Interp::Nearest, 2048),
             (Interp::Cubic, 2),
+            (Interp::Cubic, 6),
+            (Interp::Quadratic, 6),
+            (Interp::Linear, 250),
         ]
     };
     for w in WINDOWS {
@@ -569,55 +573,70 @@ fn c02_sinc(acc: &mut Acc, tier: Tier, window: WindowFunction, l: usize, cc: boo
     let q = tier == Tier::Quick;
     let ccv = calculate_cutoff::<f32>(l, window);
     let f_cutoff = if cc { ccv } else { 0.8 };
-    let tw = 1.0 - ccv as f64;
     let ratios: Vec<f64> = if q { vec![0.25, 147.0 / 160.0, 2.5] } else { vec![0.25, 0.7, 147.0 / 160.0, 1.0, 160.0 / 147.0, 2.5, 8.0] };
-    let lim = 10f64.powf(-rej_db(window) / 20.0);
-    let a = 0.8;
     for &ratio in &ratios {
         for (kind, max_rel) in [(Kind::SI, 1.0), (Kind::SO, 1.0), (Kind::SI, 2.0), (Kind::SO, 1.1)] {
             // the filter must not depend on the adjustable range
             let mut cfg = sinc_cfg(kind, ratio, if kind == Kind::SI { 500 } else { 512 }, l, 256, Interp::Cubic, window, f_cutoff);
             cfg.max_rel = max_rel;
-            let mut u = Unit::<f64>::new(&cfg)?;
-            let stop = f_cutoff as f64 * ratio.min(1.0) + tw;
-            let meta = json!({"family": "sinc", "window": window_name(window), "sinc_len": l, "cc": cc, "ratio": ratio});
-            // (1) input content beyond the stop edge (exists only below the input Nyquist)
-            if stop < 0.99 {
-                for frac in [0.003, 0.1, 0.3, 0.7, 0.93] {
-                    let f = stop + frac * (1.0 - stop);
-                    if let Some(j) = journal {
-                        j.write(&cfg.to_json(), &format!("stopband tone f={}", f));
-                    }
-                    let t = u.tone(f, a, 0.7, 3000)?;
-                    acc.evals += 1;
-                    acc.nontrivial += 1;
-                    let level = 2f64.sqrt() * t.out_rms / a;
-                    let point = format!("stopband tone at stop edge + {}*(1 - stop edge): f={:.5}, stop edge {:.5}", frac, f, stop);
-                    acc.margin(&format!("stopband:{}", window_name(window)), level / lim, || json!({"cfg": cfg.short(), "point": point, "level_dB": 20.0 * level.log10(), "required_dB": -rej_db(window)}));
-                    acc.outcomes.insert(format!("{}:{}:stop:{}", cfg.kind.name(), window_name(window), if level <= lim { "ok" } else { "LEAK" }));
-                    if !(level <= lim) {
-                        acc.fail("C02", &cfg, "aliasing", format!("a tone above the stopband edge comes out at {:.1} dB, required <= -{} dB", 20.0 * level.log10(), rej_db(window)), point, meta.clone());
-                    }
-                }
-            } else {
-                acc.vacuous += 1;
+            c02_sinc_unit::<f64>(acc, &cfg, window, l, cc, ratio, journal)?;
+            // single precision runs through the kernel the dispatch selects for f32; the rejection
+            // figures are stated for f64, an f32 stream is held to single precision (2^-18)
+            if max_rel == 1.0 {
+                c02_sinc_unit::<f32>(acc, &cfg, window, l, cc, ratio, journal)?;
             }
-            // (2) upsampling: images of a passband tone (all beyond the stop edge when f_cutoff <= calculate_cutoff)
-            if ratio > 1.0 && f_cutoff <= ccv {
-                let edge = f_cutoff as f64 - tw;
-                for frac in [0.3, 0.6, 0.9] {
-                    let f = frac * edge;
-                    let t = u.tone(f, a, 0.2, 3000)?;
-                    acc.evals += 1;
-                    acc.nontrivial += 1;
-                    let level = t.resid_peak / a;
-                    let point = format!("images of a passband tone at {}*edge (f={:.5})", frac, f);
-                    acc.margin(&format!("images:{}", window_name(window)), level / lim, || json!({"cfg": cfg.short(), "point": point, "level_dB": 20.0 * level.log10(), "required_dB": -rej_db(window)}));
-                    acc.outcomes.insert(format!("{}:{}:image:{}", cfg.kind.name(), window_name(window), if level <= lim { "ok" } else { "LEAK" }));
-                    if !(level <= lim) {
-                        acc.fail("C02", &cfg, "imaging", format!("everything but the tone itself is at {:.1} dB, required <= -{} dB", 20.0 * level.log10(), rej_db(window)), point, meta.clone());
-                    }
-                }
+        }
+    }
+    Ok(())
+}
+
+fn c02_sinc_unit<T: Flt>(acc: &mut Acc, cfg: &Cfg, window: WindowFunction, l: usize, cc: bool, ratio: f64, journal: Option<&JournalFile>) -> Result<(), String> {
+    let ccv = calculate_cutoff::<f32>(l, window);
+    let f_cutoff = cfg.f_cutoff;
+    let tw = 1.0 - ccv as f64;
+    let floor = if T::IS_F32 { (2.0f64).powi(-18) } else { 0.0 };
+    let lim = (10f64.powf(-rej_db(window) / 20.0)).max(floor);
+    let req_db = -20.0 * lim.log10();
+    let a = 0.8;
+    let mut u = Unit::<T>::new(cfg)?;
+    let stop = f_cutoff as f64 * ratio.min(1.0) + tw;
+    let meta = json!({"family": "sinc", "window": window_name(window), "sinc_len": l, "cc": cc, "ratio": ratio, "T": T::NAME});
+    let tag = if T::IS_F32 { ":f32" } else { "" };
+    // (1) input content beyond the stop edge (exists only below the input Nyquist)
+    if stop < 0.99 {
+        for frac in [0.003, 0.1, 0.3, 0.7, 0.93] {
+            let f = stop + frac * (1.0 - stop);
+            if let Some(j) = journal {
+                j.write(&cfg.to_json(), &format!("stopband tone f={} T={}", f, T::NAME));
+            }
+            let t = u.tone(f, a, 0.7, 3000)?;
+            acc.evals += 1;
+            acc.nontrivial += 1;
+            let level = 2f64.sqrt() * t.out_rms / a;
+            let point = format!("T={} stopband tone at stop edge + {}*(1 - stop edge): f={:.5}, stop edge {:.5}", T::NAME, frac, f, stop);
+            acc.margin(&format!("stopband:{}{}", window_name(window), tag), level / lim, || json!({"cfg": cfg.short(), "point": point, "level_dB": 20.0 * level.log10(), "required_dB": -req_db}));
+            acc.outcomes.insert(format!("{}:{}:stop{}:{}", cfg.kind.name(), window_name(window), tag, if level <= lim { "ok" } else { "LEAK" }));
+            if !(level <= lim) {
+                acc.fail("C02", cfg, "aliasing", format!("a tone above the stopband edge comes out at {:.1} dB, required <= -{:.0} dB", 20.0 * level.log10(), req_db), point, meta.clone());
+            }
+        }
+    } else {
+        acc.vacuous += 1;
+    }
+    // (2) upsampling: images of a passband tone (all beyond the stop edge when f_cutoff <= calculate_cutoff)
+    if ratio > 1.0 && f_cutoff <= ccv {
+        let edge = f_cutoff as f64 - tw;
+        for frac in [0.3, 0.6, 0.9] {
+            let f = frac * edge;
+            let t = u.tone(f, a, 0.2, 3000)?;
+            acc.evals += 1;
+            acc.nontrivial += 1;
+            let level = t.resid_peak / a;
+            let point = format!("T={} images of a passband tone at {}*edge (f={:.5})", T::NAME, frac, f);
+            acc.margin(&format!("images:{}{}", window_name(window), tag), level / lim, || json!({"cfg": cfg.short(), "point": point, "level_dB": 20.0 * level.log10(), "required_dB": -req_db}));
+            acc.outcomes.insert(format!("{}:{}:image{}:{}", cfg.kind.name(), window_name(window), tag, if level <= lim { "ok" } else { "LEAK" }));
+            if !(level <= lim) {
+                acc.fail("C02", cfg, "imaging", format!("everything but the tone itself is at {:.1} dB, required <= -{:.0} dB", 20.0 * level.log10(), req_db), point, meta.clone());
             }
         }
     }
